@@ -182,7 +182,7 @@ def gen_world(rng, tier):
     cfg = {
         "dtypes": dtypes,
         "helpers_per_call": r.choice([[1], [1, 2], [1, 2, 3], [2, 3]]),
-        "reuse_rate": r.choice([0, 0, 0.3]),
+        "reuse_rate": r.choice([0, 0.3, 0.6]),
         "two_columns": r.choice([0, 0, 0.5]),
         "toggle_rate": r.choice([0, 0, 0.15]),
         "nlifetimes": r.choice([1, 2, 2, 3]),
